@@ -12,23 +12,25 @@ inductive IP where
   | v4 (a b c d : Nat)          -- dotted quad "a.b.c.d"
   | mapped (a b c d : Nat)      -- "::ffff:a.b.c.d" (To4 succeeds)
   | lo6                          -- "::1"
-  | v6 (text : String)           -- any other IPv6 text (non-loopback, To4 = nil); compared as raw text
+  | v6 (pre post : String)       -- any other IPv6 text `pre:post` (non-loopback, To4 = nil or unparseable
+                                 -- zone-scoped text); compared as raw text.  An IPv6 host text always
+                                 -- contains a colon, which the constructor makes structural.
   deriving Repr, DecidableEq
 
 def IP.isLoopback : IP → Bool
   | .v4 a _ _ _ => a == 127
   | .mapped a _ _ _ => a == 127
   | .lo6 => true
-  | .v6 _ => false
+  | .v6 _ _ => false
 
-def dotted (a b c d : Nat) : String := s!"{a}.{b}.{c}.{d}"
+def dotted (a b c d : Nat) : String := a.repr ++ "." ++ b.repr ++ "." ++ c.repr ++ "." ++ d.repr
 
 /-- the string that is looked up in the whitelist (`ipv4.String()` when To4 succeeds, else the raw text). -/
 def IP.norm : IP → String
   | .v4 a b c d => dotted a b c d
   | .mapped a b c d => dotted a b c d
   | .lo6 => "::1"
-  | .v6 t => t
+  | .v6 pre post => pre ++ ":" ++ post
 
 structure Cfg where
   whitelist : List String := []
@@ -41,17 +43,26 @@ structure Cfg where
   pass : String := ""
   deriving Repr
 
-/-- `InitIPWhitelist` starting from empty package maps. -/
-def ipSet (c : Cfg) : List String :=
+/-- the keys one call of `InitIPWhitelist` adds to the package map `remoteIPWhitelist`. -/
+def ipEntries (c : Cfg) : List String :=
   if c.whitelist.isEmpty && c.whitlist.isEmpty then ["127.0.0.1"]
   else if c.whitelist == ["*"] then ["0.0.0.0"]
   else if c.whitlist == ["*"] then ["0.0.0.0"]
   else if !c.whitelist.isEmpty then c.whitelist     -- `return` after the first non-empty key:
   else c.whitlist                                    -- `whitlist` is only read when `whitelist` is empty
 
+/-- `InitIPWhitelist` on an existing package map (the map is only ever added to, never cleared). -/
+def ipAdd (s : List String) (c : Cfg) : List String := s ++ ipEntries c
+
+/-- `InitIPWhitelist` starting from empty package maps. -/
+def ipSet (c : Cfg) : List String := ipAdd [] c
+
+/-- `checkIPWhitelist` against a given content of the package map. -/
+def ipAdmitS (s : List String) (ip : IP) : Bool :=
+  ip.isLoopback || s.contains "0.0.0.0" || s.contains ip.norm
+
 /-- `checkIPWhitelist` of the JSON-RPC / gRPC endpoints. -/
-def mainIPAdmit (c : Cfg) (ip : IP) : Bool :=
-  ip.isLoopback || (ipSet c).contains "0.0.0.0" || (ipSet c).contains ip.norm
+def mainIPAdmit (c : Cfg) (ip : IP) : Bool := ipAdmitS (ipSet c) ip
 
 /-- `httpServer.checkIPWhitelist` of the Ethereum-compatible endpoint: both keys empty admits
 everybody; a lone `*` under either key is a wildcard; `whitelist` takes precedence over `whitlist`. -/
@@ -98,9 +109,148 @@ so the function lists apply to loopback clients as well). -/
 def grpcUnaryReaches (c : Cfg) (ip : IP) (fullMethod : String) : Bool :=
   mainIPAdmit c ip && gFuncOk c (lastSeg fullMethod '/')
 
+/-- a gRPC client may send credentials as request metadata (`authorization`); neither interceptor of
+`NewGRpcServer` reads the metadata, so the outcome does not depend on them. -/
+def grpcUnaryReachesCred (c : Cfg) (ip : IP) (_cr : Cred) (fullMethod : String) : Bool :=
+  grpcUnaryReaches c ip fullMethod
+
 /-- gRPC server-streaming methods: the stream interceptor releases loopback peers and runs the
 unary gate for everybody else. -/
 def grpcStreamReaches (c : Cfg) (ip : IP) (fullMethod : String) : Bool :=
   ip.isLoopback || grpcUnaryReaches c ip fullMethod
+
+/-! ## Request bodies: what the gate and the dispatcher read from the same bytes
+
+`rpc/http.go` decodes the body twice: the middleware with `json.Unmarshal` into `clientRequest`
+(`parseJSONRpcParams`), and — after the method lists accepted the method found there — the
+`net/rpc/jsonrpc` server codec with `Decoder.Decode` into its own `serverRequest`.  A body is modelled
+after lexing: the ordered list of members of the top-level object (keys and string values unquoted),
+each value classified by what matters to `encoding/json`'s struct decoding. -/
+
+inductive JV where
+  | str (s : String)     -- JSON string
+  | null
+  | uint (n : Nat)       -- non-negative integer literal
+  | arr                  -- array
+  | other                -- object, boolean, negative / fractional / exponent number
+  deriving Repr, DecidableEq
+
+inductive Body where
+  | obj (members : List (String × JV))
+  | null                 -- the literal `null`: decoding it into a struct is a no-op
+  | other                -- any other top-level value
+  deriving Repr
+
+/-- Go types of the struct fields involved. -/
+inductive FTy where
+  | string | arr1 /- `[1]interface{}` -/ | uint64 | raw /- `*json.RawMessage` -/
+  deriving Repr, DecidableEq
+
+structure Field where
+  name : String          -- the `json:"…"` tag
+  ty : FTy
+  deriving Repr
+
+/-- `clientRequest` of rpc/http.go. -/
+def clientRequest : List Field := [⟨"method", .string⟩, ⟨"params", .arr1⟩, ⟨"id", .uint64⟩]
+/-- `serverRequest` of net/rpc/jsonrpc/server.go. -/
+def serverRequest : List Field := [⟨"method", .string⟩, ⟨"params", .raw⟩, ⟨"id", .raw⟩]
+
+/-- `foldRune` of encoding/json on the runes that can matter for ASCII field names: ASCII letters fold to
+upper case; U+017F (long s) and U+212A (Kelvin sign) are the only non-ASCII runes whose simple-fold orbit
+contains an ASCII letter. Other runes never match an ASCII name and are left alone. -/
+def foldChar (c : Char) : Char :=
+  if 'a' ≤ c ∧ c ≤ 'z' then Char.ofNat (c.toNat - 32)
+  else if c = Char.ofNat 0x17F then 'S'
+  else if c = Char.ofNat 0x212A then 'K'
+  else c
+
+def foldKey (s : String) : String := String.ofList (s.toList.map foldChar)
+
+/-- `fields.byExactName[key]`, else `fields.byFoldedName[foldName(key)]` (first field of a fold class). -/
+def findField (fs : List Field) (key : String) : Option Field :=
+  match fs.find? (fun f => f.name == key) with
+  | some f => some f
+  | none => fs.find? (fun f => foldKey f.name == foldKey key)
+
+/-- effect of decoding one member value into a field. -/
+inductive Store where
+  | keep | set (v : JV) | clear | err
+  deriving Repr, DecidableEq
+
+/-- `d.value(subv)`: `null` leaves non-pointer fields alone and nils a pointer; a value of the wrong kind
+records an `UnmarshalTypeError` (decoding continues, the call returns the error at the end). -/
+def store : FTy → JV → Store
+  | .raw, .null => .clear
+  | .raw, v => .set v
+  | _, .null => .keep
+  | .string, .str s => .set (.str s)
+  | .arr1, .arr => .set .arr
+  | .uint64, .uint n => if n < 2 ^ 64 then .set (.uint n) else .err
+  | _, _ => .err
+
+def stepField (fs : List Field) (target : String) (cur : Option JV) (kv : String × JV) : Option JV :=
+  match findField fs kv.1 with
+  | some f =>
+    if f.name == target then
+      match store f.ty kv.2 with
+      | .set x => some x
+      | .clear => none
+      | _ => cur
+    else cur
+  | none => cur
+
+/-- content of the field tagged `target` after all members were decoded in order (later members overwrite). -/
+def fieldVal (fs : List Field) (target : String) (ms : List (String × JV)) : Option JV :=
+  ms.foldl (stepField fs target) none
+
+def memberBad (fs : List Field) (kv : String × JV) : Bool :=
+  match findField fs kv.1 with
+  | some f => store f.ty kv.2 == .err
+  | none => false
+
+/-- some member raised a type error: `Unmarshal` / `Decode` return an error. -/
+def decodeBad (fs : List Field) (ms : List (String × JV)) : Bool := ms.any (memberBad fs)
+
+/-- the `Method` field (a Go string, zero value `""`). -/
+def methodOf (fs : List Field) (ms : List (String × JV)) : String :=
+  match fieldVal fs "method" ms with
+  | some (.str s) => s
+  | _ => ""
+
+def decodeMethod (fs : List Field) : Body → Option String
+  | .obj ms => if decodeBad fs ms then none else some (methodOf fs ms)
+  | .null => some ""
+  | .other => none
+
+/-- `parseJSONRpcParams(data).Method`; `none` = "invalid json request". -/
+def gateMethod (b : Body) : Option String := decodeMethod clientRequest b
+/-- `req.ServiceMethod` after `serverCodec.ReadRequestHeader`; `none` = decode error, nothing is dispatched. -/
+def dispatchMethod (b : Body) : Option String := decodeMethod serverRequest b
+
+/-- `net/rpc` `readRequestHeader`: `dot := strings.LastIndex(ServiceMethod, ".")`; no dot = ill-formed request,
+else the receiver method looked up is `ServiceMethod[dot+1:]`. -/
+def afterLastDot : List Char → Option (List Char)
+  | [] => none
+  | c :: cs =>
+    match afterLastDot cs with
+    | some r => some r
+    | none => if c == '.' then some cs else none
+
+def rpcMethodName (m : String) : Option String := (afterLastDot m.toList).map String.ofList
+
+/-- `c.req.Params != nil` in `ReadRequestBody` (a missing / nulled `params` aborts the call before the method runs). -/
+def dispatchHasParams : Body → Bool
+  | .obj ms => (fieldVal serverRequest "params" ms).isSome
+  | _ => false
+
+/-- JSON-RPC middleware on a request body: the `ServiceMethod` handed to `net/rpc` (`none`: the request was
+stopped by the middleware or the codec).  The method lists judge the method the *gate* decoded; what is
+dispatched is the method the *codec* decoded. -/
+def jrpcServes (c : Cfg) (ip : IP) (cr : Cred) (b : Body) : Option String :=
+  if !(mainIPAdmit c ip && authOk c cr) then none
+  else match gateMethod b with
+    | none => none
+    | some g => if ip.isLoopback || jFuncOk c (lastSeg g '.') then dispatchMethod b else none
 
 end C39
